@@ -17,6 +17,12 @@ def plan(tier):
     for i in range(NSHARD):
         shards.append(("arm", i))
         shards.append(("thumb", i))
+    # the harvested words (and their S-bit variants) again under the other architecture versions: several execute()
+    # bodies have version-specific flag / interworking rules that must sit inside the condition check as well
+    for ver in (4, 5, 7):
+        for i in range(0, NSHARD, 4):
+            shards.append(("arm-ver", i // 4, ver))
+            shards.append(("thumb-ver", i // 4, ver))
     # every conditional ENCODING, not only the harvested ones: all 2^16 Thumb halfwords in an IT block, and every leaf
     # of the lazy-word partition of ARM (cond field fixed to EQ, rewritten per variant) and Thumb-32 decode
     for blk in range(32):
@@ -33,6 +39,7 @@ def plan(tier):
                 "on the real emulator, compare the full snapshot diff with the AL execution (pass) or with {PC+len, "
                 "ITSTATE advanced} (fail); state = (word, cond, NZCV)",
         "bounds": {"arm_words": len(arm), "thumb_words": len(thumb), "conds": "0..14", "nzcv": "0..15",
+                   "versions": "ARMv6 for everything; the harvested words and their S-bit variants x all (cond, NZCV) again under ARMv4, v5 and v7",
                    "operands": "as harvested from the test-suite plus every single-bit flip of the word that stays in the same encoding class (those under conds {EQ,NE} x NZCV {0000,0100}); registers pointing into RAM",
                    "all_encodings": "all 2^16 Thumb halfwords as the single instruction of an IT block; every decode leaf of the "
                                     "ARM and Thumb-32 spaces (lazy-word partition, wide cap %d) with the free bits set to "
@@ -172,6 +179,18 @@ def leaves32(res, cpu, plan, base, kind, cube, cap, tier):
 def run_shard(arg):
     kind, idx = arg[0], arg[1]
     res = Result()
+    if kind in ("arm-ver", "thumb-ver"):
+        cpu, plan, base = isa.std_cpu(arch_version=arg[2])
+        thumb = kind == "thumb-ver"
+        for wi, (t, olen, word, cname) in enumerate(isa.harvest_words(thumb)):
+            if wi % (NSHARD // 4) != idx:
+                continue
+            for w2 in ((word, word ^ (1 << 20)) if olen == 32 else (word,)):
+                if w2 != word and class_of(cpu, w2, thumb, olen, 0x08 if thumb else 0) != cname:
+                    continue
+                check_word(res, cpu, plan, base, w2, thumb, olen, cname, range(15), range(16))
+        res.sample({"version": arg[2], "thumb": thumb, "shard": idx})
+        return res.as_dict()
     cpu, plan, base = isa.std_cpu()
     if kind == "t16all":
         all16(res, cpu, plan, base, idx)
